@@ -24,7 +24,7 @@ type Fault struct {
 // Case is one Unpack experiment.
 type Case struct {
 	Pre      fsx.Tree     `json:"pre,omitempty"` // content of dst before Unpack (files and dirs only)
-	Spelling string       `json:"spelling"`      // clean | slash | vialink | dstlink | dstlink-slash
+	Spelling string       `json:"spelling"`      // clean | slash | vialink | dstlink | dstlink-slash | rel-dot | rel-dotslash | rel-name | rel-updown
 	Entries  []tarx.Entry `json:"entries"`
 	Fault    Fault        `json:"fault"`
 	Allow    []string     `json:"allow,omitempty"` // AllowSymlinkTarget values ({R}, {DST} placeholders)
@@ -38,6 +38,7 @@ type Arena struct {
 	R       string // physical scratch root (included in the snapshot)
 	Dst     string // physical, clean path of dst
 	Spelled string // the spelling handed to Unpack
+	Cwd     string // working directory for the call ("" = leave alone): relative spellings
 	Vars    map[string]string
 	cleanup func()
 }
@@ -98,10 +99,36 @@ func NewArena(c Case) (*Arena, error) {
 		if c.Spelling == "dstlink-slash" {
 			a.Spelled += "/"
 		}
+	case "rel-dot":
+		a.Spelled, a.Cwd = ".", a.Dst
+	case "rel-dotslash":
+		a.Spelled, a.Cwd = "./", a.Dst
+	case "rel-name":
+		a.Spelled, a.Cwd = "dst", filepath.Dir(a.Dst)
+	case "rel-updown":
+		a.Spelled, a.Cwd = "../dst", a.Dst
 	default:
 		a.Spelled = a.Dst
 	}
 	return a, nil
+}
+
+// SpelledAbs is the spelling as an absolute path (unclean parts kept).
+func (a *Arena) SpelledAbs() string {
+	if a.Cwd == "" || filepath.IsAbs(a.Spelled) {
+		return a.Spelled
+	}
+	return a.Cwd + "/" + a.Spelled
+}
+
+// Enter changes into the working directory the spelling needs and returns the way back.
+func (a *Arena) Enter() func() {
+	if a.Cwd == "" {
+		return func() {}
+	}
+	old, _ := os.Getwd()
+	os.Chdir(a.Cwd)
+	return func() { os.Chdir(old) }
 }
 
 func (a *Arena) Close() { a.cleanup() }
@@ -298,8 +325,10 @@ var preTrees = []fsx.Tree{
 func GenCase(t *rapid.T, linkWeight, escapeWeight int, withFaults bool, withAllow bool) Case {
 	c := Case{}
 	c.Pre = rapid.SampledFrom(preTrees).Draw(t, "pre")
-	sp := rapid.IntRange(0, 11).Draw(t, "spelling")
+	sp := rapid.IntRange(0, 14).Draw(t, "spelling")
 	switch {
+	case sp > 11:
+		c.Spelling = rapid.SampledFrom([]string{"rel-dot", "rel-dotslash", "rel-name", "rel-updown"}).Draw(t, "relspelling")
 	case sp < 7:
 		c.Spelling = "clean"
 	case sp < 8:
